@@ -3,6 +3,6 @@ package main
 func init() {
 	plans["C05"] = Plan{Pkg: pkg("C05"), Steps: []Step{
 		{Run: "TestTinyBufferProbe", Kind: "test"},
-		{Run: "TestFraming", Quick: 4000, Thorough: 80000, QShards: 8, TShards: 16},
+		{Run: "TestFraming", Quick: 3200, Thorough: 80000, QShards: 8, TShards: 16},
 	}}
 }
